@@ -145,16 +145,6 @@ Fixpoint strong_from (prev : blk) (l : list blk) : Prop :=
 Definition strong_linked (l : list blk) : Prop :=
   match l with [] => True | b :: r => strong_from b r end.
 
-(* ---------- stale answers (statement of C03 liveness in full) ---------- *)
-Definition honest_ans (hs : bool) (fin : chain) (a : ans) : Prop :=
-  a = AAuto \/ exists o, a = AReply (honest hs fin o).
-Definition stale_ans (hs : bool) (H : list chain) (a : ans) : Prop :=
-  exists o r, a = AReply r /\ node_ans hs H o r /\ is_fail r = false.
-Inductive at_most_stale (hs : bool) (H : list chain) (fin : chain) : nat -> list ans -> Prop :=
-| ams_nil : forall k, at_most_stale hs H fin k []
-| ams_honest : forall k a l, honest_ans hs fin a -> at_most_stale hs H fin k l -> at_most_stale hs H fin k (a :: l)
-| ams_stale : forall k a l, stale_ans hs H a -> at_most_stale hs H fin k l -> at_most_stale hs H fin (S k) (a :: l).
-
 (* ---------- sequences of steps ---------- *)
 Fixpoint runs_sat (G : io -> reply -> Prop) (c : tcfg) (ss : list (list ans)) (d : db) : Prop :=
   match ss with
